@@ -5,6 +5,15 @@ NOTES = ("Technique: machine-checked proof in Coq 8.16 over hand-written executa
          "when either breaks.")
 NOT_APPLICABLE = {}
 CHECKS = {
+ "C17": {
+  "text": "Theorems over exact dyadic sample values (Pcm.v): clip after the x86-64 conversion is the ideal saturating round-to-nearest-even for every "
+          "finite float and both scales; every (word, signedness, byte order) encodes that value; frames are whole, frame-major, never exceed the "
+          "buffer; too-small buffers and non-positive word sizes are errors. ov_read_filter is run in all formats with injected boundary floats and "
+          "must produce the model's bytes, return value and position advance.",
+  "note": "Trusted: Coq kernel, extraction, harness/c17.c, the x86-64 instruction semantics written into Pcm.ftoi (SSE2 variant of vorbis_ftoi; other "
+          "platforms' variants are not modelled). Print Assumptions: closed.",
+  "technique": "Coq proof (integer/dyadic arithmetic, lia/nia) + byte-exact correspondence of extracted model vs ov_read_filter",
+ },
  "C11": {
   "text": "Theorems over the symbolic PCM double buffer (Overlap.v): after blockin of packets k and k+1 - from ANY prior state and buffer - the "
           "samples between the two block centres equal the specification's overlap-add of packets k and k+1 and mention no other packet; "
